@@ -460,11 +460,12 @@ pub fn run_c05_configs(rep: &Report, tier: Tier) {
     // the same expired tracks and the same idle lists
     {
         let (pd, qd) = (Det::ltwh(0.0, 0.0, 10.0, 20.0), Det::ltwh(100.0, 0.0, 10.0, 20.0));
-        // ops: 0 predict [P], 1 predict [P, Q], 2 predict [Q], 3 skip 2 epochs, 4 wasted(), 5 idle()
-        let nops = 6usize;
+        // ops: 0 predict [P], 1 predict [P, Q], 2 predict [Q], 3 skip 2 epochs, 4 wasted(), 5 idle(), 6 predict []
+        // (an empty frame leaves both objects idle but not expired: an idle list with tracks of several shards)
+        let nops = 7usize;
         let mut hs: Vec<Vec<usize>> = vec![];
         for len in 2..=tier.pick(4usize, 5usize) {
-            hs.extend(words(nops, len).into_iter().filter(|w| w[0] <= 2 && w.iter().any(|o| *o == 3)));
+            hs.extend(words(nops, len).into_iter().filter(|w| w[0] <= 2 && (w.iter().any(|o| *o == 3) || w.iter().any(|o| *o == 6) && w.iter().any(|o| *o == 4 || *o == 5))));
         }
         let hs = Arc::new(hs);
         let mut runs = 0u64;
@@ -488,8 +489,17 @@ pub fn run_c05_configs(rep: &Report, tier: Tier) {
                                     t.skip(0, 2);
                                     String::new()
                                 }
-                                4 => format!("{:?}", t.wasted().iter().map(|x| (x.id, x.epoch, x.length)).collect::<Vec<_>>()),
-                                _ => format!("{:?}", t.idle(0).iter().map(|x| (x.id, x.epoch, x.length)).collect::<Vec<_>>()),
+                                4 => {
+                                    let mut l = t.wasted().iter().map(|x| (x.id, x.epoch, x.length)).collect::<Vec<_>>();
+                                    l.sort();
+                                    format!("{l:?}")
+                                }
+                                6 => format!("{:?}", t.predict(0, &[])),
+                                _ => {
+                                    let mut l = t.idle(0).iter().map(|x| (x.id, x.epoch, x.length)).collect::<Vec<_>>();
+                                    l.sort();
+                                    format!("{l:?}")
+                                }
                             })
                             .collect()
                     };
@@ -511,7 +521,7 @@ pub fn run_c05_configs(rep: &Report, tier: Tier) {
                 match o {
                     Ok(v) => {
                         for (w, what) in v {
-                            rep.violation(Violation { key: "shard-count/transcript-differs".into(), what, replay: json!({"part":"shard-count differential, expiry family","config":base.json(),"ops":w,"legend":"0 predict [P], 1 predict [P,Q], 2 predict [Q], 3 skip 2 epochs, 4 wasted(), 5 idle()"}) });
+                            rep.violation(Violation { key: "shard-count/transcript-differs".into(), what, replay: json!({"part":"shard-count differential, expiry family","config":base.json(),"ops":w,"legend":"0 predict [P], 1 predict [P,Q], 2 predict [Q], 3 skip 2 epochs, 4 wasted(), 5 idle(), 6 predict []"}) });
                         }
                     }
                     Err(e) => rep.violation(Violation { key: format!("shard-count/{}/panic-or-deadlock", kind.name()), what: e.chars().take(300).collect(), replay: json!({"part":"shard-count differential, expiry family","config":base.json(),"first_history_of_the_chunk":hs[ci * chunk]}) }),
